@@ -365,9 +365,12 @@ func (ex *Ex) invoke(fr *Frame, st *State, ins ssa.Instruction, cc *ssa.CallComm
 	}
 	m := cc.Method
 	sig := m.Type().(*types.Signature)
-	if cc.Value.Type().String() == "reflect.Type" {
+	if ts := cc.Value.Type().String(); ts == "reflect.Type" || ts == "internal/reflectlite.Type" {
 		if r, ok := ex.reflectInvoke(fr, st, recv, m.Name(), args); ok {
 			ex.note("extern axiom: reflect.Type." + m.Name() + " is a function of the type identity")
+			if r.Kind == kApp && r.Op == "mkI" && r.Args[1].Kind == kApp && r.Args[1].Op == "rtref" {
+				st.Assume(Eq(App("rtid", SInt, r.Args[1]), r.Args[1].Args[0]))
+			}
 			k(st, Val{T: r})
 			return
 		}
